@@ -36,6 +36,9 @@ def jobs_for(prop, tier, rng):
             add("stopgo4_%d" % i, "stopgo", 4, rounds=6, blocks=16384)
             add("stopgo6_%d" % i, "stopgo", 6, rounds=5, blocks=16384)
         if prop in ("C02",):
+            # a device that runs full while several threads write: batches that fail for lack of space go back in front,
+            # retirements make room (Coord's `nospace` branch)
+            add("squeeze4_%d" % i, "mixed", 4, steps=80, blocks=56)
             add("flushy4_%d" % i, "mixed", 4, steps=90, threads=4, flushpct=35)
             add("flushy6_%d" % i, "mixed", 6, steps=80, threads=5, flushpct=30)
             add("bigburst_%d" % i, "bigburst", 2, burst=7, blocks=20480)
